@@ -571,6 +571,7 @@ func checkC20(rc *RunCtx) *Report {
 			}
 			out.Numbers["states"] += int64(x.States)
 			out.Numbers["transitions"] += int64(x.Transitions)
+			out.Numbers["split_steps"] += int64(x.Splits)
 			out.Numbers["transitions_judged"] += int64(judged)
 			out.Numbers["interleavings"] += int64(x.Interleavings)
 			out.Numbers["write_conflicts_provoked"] += int64(x.conflicts)
